@@ -260,6 +260,13 @@ def replay(payload):
             print(fl["what"], "observed", fl["observed"], "expected", fl["expected"])
         return ok
     ops = cs.ops_unjson(c["ops"])
+    # the check runs many histories in one process: open another dataset on the same URL with another session first,
+    # so that state kept across datasets (class- or module-level) is in place as it was in the run
+    try:
+        pre = cs.Sim("plain", trace=False)
+        pre.ds.functions.mean(pre.ds["a"], 0)["a"]
+    except Exception:
+        pass
     sim = cs.Sim(c.get("session", "plain"), output_grid=c.get("output_grid", False))
     hr = cs.HistoryRun(ctx, sim, ops, c).run()
     if not hr.failed:
